@@ -42,6 +42,8 @@ func init() {
 		MinRuns:    30,
 		Exec:       runC16,
 		PanicClass: panicInRepo("evm-panic"),
+		// reach probes every batch is expected to hit (listed in the evidence as probes_never_hit otherwise)
+		ExpectedProbes: []string{"continued on a reopened state", "depth failure of a value-carrying call", "empty account touched only inside failed frames survives Finalise", "failed frame after inner success", "failed frame containing create", "failed frame containing self-destruct", "failed frame had visible effects before the abort", "failed frame in static context", "nested failure inside failed frame", "recursion program", "revert in 2nd+ transaction (after Finalise)", "self-destruct to another account", "self-destruct to self", "static frame materialised an empty account object (dead before and after, EIP-161)", "static frame succeeded", "static frame with nested call", "static violation by CALL", "static violation by CREATE", "static violation by CREATE2", "static violation by LOG0", "static violation by LOG1", "static violation by LOG2", "static violation by SELFDESTRUCT", "static violation by SSTORE", "value burnt with a self-destructed account at Finalise"},
 	})
 }
 
